@@ -334,6 +334,11 @@ fn enter(rep: &mut Report, r: &mut Rng, stubs: &[u64; 256], v: usize, scratch: &
 
 extern "C" fn do_iretq(p: *mut Params) -> ! {
     let p = unsafe { &*p };
+    if p.err & 1 == 1 {
+        // the wrapper type: built by its own constructor, iretq reached through Deref
+        let f = InterruptStackFrame::new(VirtAddr::new(p.resume_rip), SegmentSelector(p.cs as u16), RFlags::from_bits_truncate(p.flags), VirtAddr::new(p.frame_rsp), SegmentSelector(p.ss as u16));
+        unsafe { f.iretq() }
+    }
     let f = InterruptStackFrameValue::new(VirtAddr::new(p.resume_rip), SegmentSelector(p.cs as u16), RFlags::from_bits_truncate(p.flags), VirtAddr::new(p.frame_rsp), SegmentSelector(p.ss as u16));
     unsafe { f.iretq() }
 }
@@ -343,13 +348,29 @@ fn iretq_case(rep: &mut Report, r: &mut Rng, scratch: &Stack, resume: &Stack, cs
     let base = own_flags() & !(ARITH | 0x400 | (1 << 21)) | 0x2;
     let flags = base | (r.next() & ARITH) | if r.chance(1, 6) { 0x400 } else { 0 } | if r.chance(1, 3) { 1 << 21 } else { 0 };
     let frame_rsp = resume.lo() + 4096 + r.below(0x6000);
-    let mut p = Params { handler: do_iretq as usize as u64, flags, frame_rsp, scratch_top: scratch.top(), cs: cs as u64, ss: ss as u64, mode: 1, ..Default::default() };
+    let wrapper = r.chance(1, 2);
+    // frame values are plain data: the wrapper's constructor and its volatile mutable view store / show exactly the fields
+    {
+        let (ip, sp) = (VirtAddr::new_truncate(r.next()), VirtAddr::new_truncate(r.next()));
+        let (c, s2) = (SegmentSelector(r.next() as u16), SegmentSelector(r.next() as u16));
+        let fl = RFlags::from_bits_truncate(r.next());
+        let mut w = InterruptStackFrame::new(ip, c, fl, sp, s2);
+        let raw: [u64; 5] = unsafe { core::ptr::read(&w as *const InterruptStackFrame as *const [u64; 5]) };
+        let ok_new = raw == [ip.as_u64(), c.0 as u64, fl.bits(), sp.as_u64(), s2.0 as u64] && w.instruction_pointer == ip && w.stack_pointer == sp && w.code_segment == c && w.stack_segment == s2 && w.cpu_flags == fl;
+        let ip2 = VirtAddr::new_truncate(r.next());
+        unsafe { w.as_mut().update(|f| f.instruction_pointer = ip2) };
+        let raw2: [u64; 5] = unsafe { core::ptr::read(&w as *const InterruptStackFrame as *const [u64; 5]) };
+        if !ok_new || raw2 != [ip2.as_u64(), c.0 as u64, fl.bits(), sp.as_u64(), s2.0 as u64] {
+            rep.violation("InterruptStackFrame::new/as_mut|not-the-hardware-frame-of-the-given-values", J::obj(vec![("raw", J::A(raw.iter().map(|&x| J::hex(x)).collect())), ("after_update", J::A(raw2.iter().map(|&x| J::hex(x)).collect()))]));
+        }
+    }
+    let mut p = Params { handler: do_iretq as usize as u64, err: wrapper as u64, flags, frame_rsp, scratch_top: scratch.top(), cs: cs as u64, ss: ss as u64, mode: 1, ..Default::default() };
     unsafe { irqsim::deliver(&mut p as *mut Params) };
     const KEEP: u64 = ARITH | 0x400 | (1 << 21);
     if p.out_path != 1 || p.out_rsp != frame_rsp || p.out_flags & KEEP != flags & KEEP {
         rep.violation("InterruptStackFrameValue::iretq|landed-with-other-rsp-or-flags", J::obj(vec![("profile", J::s(profile_name())), ("frame_rsp", J::hex(frame_rsp)), ("frame_flags", J::hex(flags)), ("rsp", J::hex(p.out_rsp)), ("rflags", J::hex(p.out_flags)), ("path", J::U(p.out_path))]));
     }
-    rep.class(&format!("iretq|df={}|id={}", (flags >> 10) & 1, (flags >> 21) & 1));
+    rep.class(&format!("iretq|{}|df={}|id={}", if wrapper { "InterruptStackFrame" } else { "InterruptStackFrameValue" }, (flags >> 10) & 1, (flags >> 21) & 1));
 }
 
 pub fn run(a: &Args, rep: &mut Report) {
